@@ -82,6 +82,37 @@ CHECKS.update({
         note="trusted: TLC, FrontTrace.tla, harness/proj.py; the matcher is applied inside its domain (no _Atomic(type-name) with declarator)"),
 })
 
+CHECKS.update({
+    "C11": dict(
+        category="model_checking", design_ref="DESIGN.md section 5 C11, 3.6 (FrontTrace CoordOK), 3.2 (CLex)",
+        technique="observed (tokens, AST) of TLC-derived programs under line-directive layouts validated by the TLA+ matcher FrontTrace.tla with CoordOK; error locations validated by ParserTrace.tla (ErrorLocExact)",
+        text="Programs derived by TLC from CGram.tla and the corpus are laid out with #line / linemarker directives that change "
+             "file and line between arbitrary tokens; the hook-recorded tokens and the returned AST are validated by "
+             "spec/FrontTrace.tla, which at the end of every matched node requires its coordinate to be (file, line, column) "
+             "of a token inside the node's own span (exactly the spelling token for identifiers, constants, declared names, "
+             "enumerators). Illegal characters are injected at token boundaries and spec/ParserTrace.tla requires the "
+             "ParseError prefix to be the logical file:line:col of that character as the cursor machine CLex0 computes it.",
+        note="trusted: TLC, FrontTrace.tla/ParserTrace.tla/CLex0.tla; token positions are bound to the raw text by C09"),
+    "C17": dict(
+        category="model_checking", design_ref="DESIGN.md section 5 C17, 3.2 (LayoutInvariance)",
+        technique="LayoutInvariant model-checked on CLex.tla; TLC-derived programs and corpus re-laid out and compared; redundant parentheses placed on expression spans reported by the TLA+ matcher",
+        text="TLC checks LayoutInvariant on spec/CLex.tla (token gap token texts lex to the chosen tokens whatever separating gap, "
+             "incl. directives). Token sequences of TLC-derived programs and of the corpus are rendered in five layouts; AST "
+             "(no coordinates) and generated text must be identical across them. The matcher FrontTrace.tla reports the token "
+             "span of each expression node; wrapping any non-comma expression span in parentheses must change nothing.",
+        note="trusted: TLC, harness/layout.py renderer, harness/proj.py"),
+    "C18": dict(
+        category="model_checking", design_ref="DESIGN.md section 5 C18, 3.3 (Brackets), TokSeq",
+        technique="Brackets.tla (all bracket strings, single-mutant theorem) and TokSeq.tla MustReject oracle model-checked by TLC and replayed; mutants/injections of TLC-derived programs; ParserTrace AcceptedIsWellFormed on traces",
+        text="TLC explores every bracket string up to length 6 (quick) / 8 (thorough) in spec/Brackets.tla, proving that every "
+             "single-bracket mutant of a balanced string is unbalanced, and exports each string; every unbalanced one is "
+             "embedded in six templates and must be rejected. Every single-bracket deletion, duplication and kind swap, and "
+             "random single-position injections of non-token text and foreign directives, of TLC-derived programs and corpus "
+             "files must be rejected with ParseError; TokSeq sequences the spec marks MustReject must be rejected; traces of "
+             "accepted programs must satisfy ParserTrace's End clause (balanced, all consumed, no '#').",
+        note="trusted: TLC, Brackets.tla, TokSeq.tla, harness/outcome.py"),
+})
+
 PENDING = {}
 
 
